@@ -13,6 +13,8 @@ def rule_lifetimes(ctx, R):
     """C18-R3: every region in a return type occurs in an input type or is 'static."""
     n = 0
     for crate in (ctx.gecs, ctx.spec):
+        if crate is None:
+            continue
         for path, f in sorted(crate.fns.items()):
             s = f.sig()
             if not s:
@@ -51,7 +53,7 @@ def rule_unsafe_surface(ctx, R):
         R.check(ok, "C18-R4", key, "unsafe impl %s for DataPtr<T> where T: same" % i["trait"].split("::")[-1],
                 "unreviewed `unsafe impl %s for %s` (where %s): only Send/Sync for DataPtr<T> bounded on T are reviewed; e.g. an unconditional Sync impl would make a world shareable between threads" % (i["trait"], i["self"], i["where"]), i["span"]["f"] + ":" + str(i["span"]["l"]))
     R.check(seen == {"std::marker::Send", "std::marker::Sync"}, "C18-R4", "unsafe-impl|set", "exactly Send and Sync for DataPtr<T>", "unsafe impls present: %s" % sorted(seen), None)
-    for i in ctx.spec.impls:
+    for i in (ctx.spec.impls if ctx.spec is not None else ()):
         if i.get("unsafe") and i.get("trait") not in DERIVE_ARTEFACT_TRAITS:
             R.fail("C18-R4", "generated-unsafe-impl|%s" % i["self"].split("::")[-1], "generated/client code contains `unsafe impl %s for %s`" % (i["trait"], i["self"]), None)
     # negative impls / Sync-ness: a storage holds RefCell columns => never Sync (auto trait); recorded by witness programs
